@@ -50,7 +50,7 @@ def subst(v, o):
 
 
 def brief(req):
-    return {k: req[k] for k in ('fam', 'proto', 'kind', 'probe', 'preserveHost', 'host', 'custom', 'ua', 'probeText', 'method', 'path')} | \
+    return {k: req[k] for k in ('fam', 'proto', 'kind', 'probe', 'preserveHost', 'host', 'custom', 'ua', 'probeText', 'method', 'path', 'scheme', 'prefix') if k in req} | \
         {'lines': ['%s(%s): %s' % (l['k'], l['sp'], l['v']) for l in req['lines']]}
 
 
@@ -102,8 +102,9 @@ def judge(ctx, scs, obs, keys_of_interest, classify):
             if o['host'] != want:
                 viol('host_wrong', 'backend saw Host %r, specification says %r' % (o['host'], want), 'Host')
         if 'target' in keys_of_interest:
-            if o.get('uri') != req['path'] or o.get('method') != req['method']:
-                viol('request_line_changed', 'backend saw %r %r, client sent %r %r' % (o.get('method'), o.get('uri'), req['method'], req['path']), 'request-line')
+            want_t = req.get('wantTarget', req['path'])
+            if o.get('uri') != want_t or o.get('method') != req['method']:
+                viol('request_line_changed', 'backend saw %r %r, client sent %r %r (forward URL path %r)' % (o.get('method'), o.get('uri'), req['method'], req['path'], req.get('prefix', '')), 'request-line')
         for k in keys_of_interest:
             if k in ('host', 'target'):
                 continue
